@@ -103,6 +103,20 @@ def handle (args : List Sexp) : String :=
       | "safesub" => let r := Mag.safesubArr i; "ok " ++ showMS r.cs ++ " " ++ showMTag r.tag
       | _ => "err bad-op"
     | _, _, _, _ => "err bad-args"
+  | [Sexp.atom "mixed", Sexp.atom op, Sexp.atom dt, sc, el] =>
+    -- C15 mixed max|min f64|i64|bool SCALAR ELEMENT : the registered (number, array) form on one element
+    let elem : Option Elem := match dt with
+      | "f64" => (XR.ofSexp? el).map Elem.f
+      | "i64" => el.asInt?.map Elem.i
+      | "bool" => el.asBool?.map Elem.b
+      | _ => none
+    match XR.ofSexp? sc, elem with
+    | some s, some e =>
+      match op with
+      | "max" => "ok " ++ toString (mixedMax s e)
+      | "min" => "ok " ++ toString (mixedMin s e)
+      | _ => "err bad-op"
+    | _, _ => "err bad-args"
   | [Sexp.atom "special", Sexp.atom op, Sexp.atom v, cx, cy, ord] =>
     match Variant.ofName? v, parseCls cx, parseCls cy, parseOrd ord with
     | some v, some cx, some cy, some ord =>
